@@ -290,6 +290,17 @@ func main() {
 			}
 			counts[k]++
 		}
+		// round-8 classes: deterministic (fixed sub-seeds), emitted after everything else so that the streams above stay
+		// as they were: maps holding nil values, LRUs built with capacities at the top of int64
+		for _, lk := range []struct {
+			k    string
+			q, t int
+		}{{"nilmap", 16, 80}, {"maxlru", 8, 40}, {"maxtiny", 8, 40}} {
+			for i := 0; i < e.Scale(lk.q, lk.t); i++ {
+				e.Emit(genCase(lk.k, int64(i), thorough))
+				counts[lk.k]++
+			}
+		}
 		e.Meta["ctor_rounds"] = ctorRounds
 		e.Meta["burst_rounds"] = burstRounds
 		e.Meta["burst_rounds_differing_from_reference"] = burstBad
